@@ -56,6 +56,125 @@ lazy_static! {
         Arc::new((Mutex::new(CallingProcess::Pending), Condvar::new()));
 }
 
+// Verification hook (compiled only with --cfg dandavison_delta_verif): named ordering points
+// around the lock acquisitions below. DELTA_VERIF_SCHED="p1,p2,..." makes each listed point wait
+// until all points listed before it have been passed (a point that waits longer than
+// DELTA_VERIF_SCHED_TIMEOUT_MS gives up and is struck from the list); points not listed pass
+// freely. An entry "@p" stands for the arrival of a thread at point p (it is passed as soon as
+// some thread has reached p, whether or not p may be passed yet).
+// DELTA_VERIF_TRACE=<file> records the order in which points were passed.
+#[cfg(dandavison_delta_verif)]
+pub mod verif_sched {
+    use std::io::Write;
+    use std::sync::atomic::{AtomicUsize, Ordering};
+    use std::sync::{Condvar, Mutex, OnceLock};
+    use std::time::Duration;
+
+    struct Sched {
+        order: Vec<String>,
+        next: usize,
+        arrived: Vec<String>,
+    }
+
+    impl Sched {
+        // Pass the "@p" entries at the head of the list whose point has been reached.
+        fn pass_arrivals(&mut self) {
+            while let Some(p) = self.order.get(self.next).and_then(|e| e.strip_prefix('@')) {
+                if !self.arrived.iter().any(|a| a == p) {
+                    break;
+                }
+                self.next += 1;
+            }
+        }
+    }
+    static SCHED: OnceLock<(Mutex<Sched>, Condvar)> = OnceLock::new();
+    static QUERIES: AtomicUsize = AtomicUsize::new(0);
+
+    fn sched() -> &'static (Mutex<Sched>, Condvar) {
+        SCHED.get_or_init(|| {
+            let order = std::env::var("DELTA_VERIF_SCHED")
+                .map(|s| {
+                    s.split(',')
+                        .filter(|p| !p.is_empty())
+                        .map(String::from)
+                        .collect()
+                })
+                .unwrap_or_default();
+            (
+                Mutex::new(Sched {
+                    order,
+                    next: 0,
+                    arrived: Vec::new(),
+                }),
+                Condvar::new(),
+            )
+        })
+    }
+
+    fn trace(line: &str) {
+        if let Ok(path) = std::env::var("DELTA_VERIF_TRACE") {
+            if let Ok(mut f) = std::fs::OpenOptions::new()
+                .create(true)
+                .append(true)
+                .open(path)
+            {
+                let _ = writeln!(f, "{line}");
+            }
+        }
+    }
+
+    // The k-th call of calling_process() is the point "query#k".
+    pub fn query_point() {
+        let k = QUERIES.fetch_add(1, Ordering::SeqCst) + 1;
+        point(&format!("query#{k}"));
+    }
+
+    pub fn point(name: &str) {
+        if std::env::var_os("DELTA_VERIF_SCHED").is_none()
+            && std::env::var_os("DELTA_VERIF_TRACE").is_none()
+        {
+            return;
+        }
+        let timeout = std::env::var("DELTA_VERIF_SCHED_TIMEOUT_MS")
+            .ok()
+            .and_then(|s| s.parse().ok())
+            .unwrap_or(3000);
+        let (mutex, changed) = sched();
+        let mut s = mutex.lock().unwrap();
+        s.arrived.push(name.to_string());
+        s.pass_arrivals();
+        changed.notify_all();
+        if !s.order[s.next..].iter().any(|p| p == name) {
+            trace(name);
+            return;
+        }
+        let mut gave_up = false;
+        while s.order.get(s.next).map(|p| p != name).unwrap_or(false) {
+            let (guard, result) = changed
+                .wait_timeout(s, Duration::from_millis(timeout))
+                .unwrap();
+            s = guard;
+            s.pass_arrivals();
+            if result.timed_out() {
+                gave_up = true;
+                break;
+            }
+        }
+        if gave_up && s.order.get(s.next).map(|p| p != name).unwrap_or(true) {
+            let next = s.next;
+            if let Some(i) = s.order[next..].iter().position(|p| p == name) {
+                s.order.remove(next + i);
+            }
+            trace(&format!("TIMEOUT {name}"));
+        } else {
+            s.next += 1;
+            trace(name);
+        }
+        s.pass_arrivals();
+        changed.notify_all();
+    }
+}
+
 // delta was called by this process (or called by something which called delta and it),
 // try looking up this information in the process tree.
 pub fn start_determining_calling_process_in_thread() {
@@ -64,17 +183,27 @@ pub fn start_determining_calling_process_in_thread() {
     std::thread::Builder::new()
         .name("find_calling_process".into())
         .spawn(move || {
+            #[cfg(dandavison_delta_verif)]
+            verif_sched::point("bg:start");
             let calling_process = determine_calling_process();
+            #[cfg(dandavison_delta_verif)]
+            verif_sched::point("bg:determined");
 
             let (caller_mutex, determine_done) = &**CALLER;
 
             let mut caller = caller_mutex.lock().unwrap();
+            #[cfg(dandavison_delta_verif)]
+            verif_sched::point("bg:locked");
 
             if CALLER_INFO_SOURCE.load(DELTA_ATOMIC_ORDERING) <= CALLER_GUESSED {
                 *caller = calling_process;
             }
+            #[cfg(dandavison_delta_verif)]
+            verif_sched::point("bg:stored");
 
             determine_done.notify_all();
+            #[cfg(dandavison_delta_verif)]
+            verif_sched::point("bg:done");
         })
         .unwrap();
 }
@@ -82,17 +211,27 @@ pub fn start_determining_calling_process_in_thread() {
 // delta starts the process, so it is known.
 pub fn set_calling_process(args: &[String]) {
     if let ProcessArgs::Args(result) = describe_calling_process(args) {
+        #[cfg(dandavison_delta_verif)]
+        verif_sched::point("set:before-lock");
         let (caller_mutex, determine_done) = &**CALLER;
 
         let mut caller = caller_mutex.lock().unwrap();
+        #[cfg(dandavison_delta_verif)]
+        verif_sched::point("set:locked");
         *caller = result;
         CALLER_INFO_SOURCE.store(CALLER_KNOWN, DELTA_ATOMIC_ORDERING);
+        #[cfg(dandavison_delta_verif)]
+        verif_sched::point("set:stored");
         determine_done.notify_all();
+        #[cfg(dandavison_delta_verif)]
+        verif_sched::point("set:done");
     }
 }
 
 #[cfg(not(test))]
 pub fn calling_process() -> MutexGuard<'static, CallingProcess> {
+    #[cfg(dandavison_delta_verif)]
+    verif_sched::query_point();
     let (caller_mutex, determine_done) = &**CALLER;
 
     determine_done
